@@ -199,6 +199,22 @@ Proof.
     destruct (c1 - c0 =? w) eqn:E2; cbn [negb]; [|reflexivity]. lia.
 Qed.
 
+(* window on a cube: with only a shape it is pad on the image axes (1, 2), whatever the depth *)
+Theorem window3_shape_is_pad (c : cube S) h w : cd c * cr c * cc c <> 1 ->
+  window3 c (Some (h, w)) None = pad3 c h w /\ window3 c None None = Ok c.
+Proof. intros H. unfold window3. replace (cd c * cr c * cc c =? 1) with false by lia. split; reflexivity. Qed.
+
+(* ... and with a slice every layer is the 2-D window of that layer *)
+Theorem window3_slice_layers (c : cube S) r0 r1 c0 c1 k : cd c * cr c * cc c <> 1 ->
+  exists b, window3 c None (Some (r0, r1, c0, c1)) = Ok b /\ cd b = cd c /\
+    cr b = nr (np_slice (cslice c k) r0 r1 c0 c1) /\ cc b = nc (np_slice (cslice c k) r0 r1 c0 c1) /\
+    forall i j, cget b k i j = get (np_slice (cslice c k) r0 r1 c0 c1) i j.
+Proof.
+  intros H. unfold window3. replace (cd c * cr c * cc c =? 1) with false by lia.
+  eexists. split; [reflexivity|]. unfold np_slice3, np_slice, cslice. cbn [cd cr cc cget nr nc get].
+  repeat split.
+Qed.
+
 (* ------------------------------------------------------------------ first / last *)
 Lemma first_from_spec k f : forall i,
   match first_from k i f with
